@@ -37,6 +37,8 @@ def option_alphabet(tier):
     A += [(3, S, "a"), (3, S, "xn--example.com"), (8, S, "loc"), (15, S, "a=b"), (15, S, ""), (20, S, "q"),
           (35, S, "coap://h/" + "p" * 259), (39, S, "coap")]
     A += [(11, S, v) for v in ("", "a", "é", "€" * 4, "m" * 12, "n" * 13, "o" * 268, "p" * 269)]
+    # legal UTF-8 that is not in a Unicode normal form: must go over the wire exactly as given
+    A += [(11, S, "e\u0301"), (3, S, "\u212b.example"), (15, S, "\u1100\u1161=\u2126")]
     A += [(4, O, b""), (4, O, b"\x00"), (4, O, b"\xff" * 8), (1, O, b""), (1, O, b"ab"), (9, O, b"\x09\x01"),
           (252, O, b"e" * 12), (292, O, b""), (292, O, b"\xff"), (548, O, b"h" * 13), (5, O, b""), (21, O, b"")]
     blocks = [(0, False, 0), (1, True, 6), (15, False, 2), (16, True, 0), (2**20 - 1, True, 7)]
